@@ -63,7 +63,10 @@ def strategy(draw):
         else:
             states.append(dict(how="fdwr", n=draw(st.sampled_from([1.0, 1.5, 2.0])), dist=draw(st.sampled_from(["lognormal", "normal"]))))
     return dict(f=f, groups=groups, azimuths=azs, states=states, nstd=draw(st.sampled_from([1.0, 2.0, 0.5])),
-                perm=draw(st.permutations(list(range(naz)))))
+                perm=draw(st.permutations(list(range(naz)))),
+                # an accepted window with a dead sample (amplitude exactly 0 at one frequency, a valid input): in log space that
+                # column is undefined and is not compared; every other column must be unaffected
+                zero=(dict(az=draw(st.integers(0, naz - 1)), win=draw(st.integers(0, 7)), col=draw(gen.floats(0.05, 0.3))) if draw(gen.chance(5)) else None))
 
 
 BIG = {"quick": 12, "thorough": 96}
@@ -155,10 +158,16 @@ def check_case(case):
     import hvsrpy as hv
     f = np.array(case["f"], dtype=float)
     groups_A = [c06.expand_group(g, f) for g in case["groups"]]
+    zero_col = None
+    if case.get("zero") and not case.get("big"):
+        z = case["zero"]
+        A_ = groups_A[z["az"] % len(groups_A)]
+        zero_col = max(1, int(z["col"] * len(f)))
+        A_[z["win"] % len(A_), zero_col] = 0.0
     azs = case["azimuths"]
     naz = len(azs)
     nstd = case["nstd"]
-    labels = [f"naz={naz}"]
+    labels = [f"naz={naz}"] + (["dead-sample-in-accepted-window"] if zero_col is not None else [])
 
     def build(As, azimuths):
         return hv.HvsrAzimuthal([hv.HvsrTraditional(f, A) for A in As], azimuths)
@@ -193,7 +202,10 @@ def check_case(case):
                 if key.startswith("_"):
                     continue
                 atol = 1e-12 * (float(np.max(groups_A[0])) * float(f[-1]) if dist == "normal" else 1.0) if ("std" in key and "nth" not in key) or key == "cov_fn" else 1e-300
-                if not close(got[key], want, rtol=1e-10, atol=atol):
+                g_, w_ = got[key], want
+                if zero_col is not None and "curve" in key and dist != "normal":
+                    g_, w_ = np.delete(np.asarray(g_, dtype=float), zero_col), np.delete(np.asarray(w_, dtype=float), zero_col)
+                if not close(g_, w_, rtol=1e-10, atol=atol):
                     raise Violation(f"{step}: {key} ({dist}) = {np.ravel(got[key])[:3].tolist()} differs from the equal-azimuth-weight estimator "
                                     f"{np.ravel(want)[:3].tolist()} (rel err {rel_err(got[key], want):.3g}); azimuths {azs}, accepted per azimuth {counts}")
             require(close(got["mean_fn_frequency"], ref["_mean_of_means"], rtol=1e-10),
